@@ -33,7 +33,7 @@ for c in $CHECKS; do
 done
 echo "RESULT$DET"
 if [ "$WITH" != 0 ] && [ "$WITHOUT" = 0 ]; then
-  T=/verif/seeded/$P-$K
+  T=/verif/seeded/$P-$K${SEEDSUFFIX:-}
   rm -rf "$T"; mkdir -p "$T"
   cp "$SRC/patch$K.diff" "$T/patch.diff"
   cp -r "$SRC/demo$K" "$T/demo"
